@@ -44,6 +44,8 @@ def jobs(tier, seed):
                     js.append(Job(f"C11/optimize/{n}/{mode}/{mu_given}/{start_given}", "contracts.C11:job_optimize",
                                   dict(n=n, mode=mode, mu_given=mu_given, start_given=start_given, seed=seed, timeout_s=t),
                                   timeout_s=(240.0 if tier == "quick" else 900.0), weight=float(n)))
+    from .C02 import e2_jobs
+    js += e2_jobs("C11", ["contracts.C11_e2:LossMinimizationWiring"], tier, seed)
     return js
 
 
